@@ -98,6 +98,23 @@ sys.exit(0)
 """
 
 
+def effective_argument(calls: List[Tuple[Any, Any]], var: Any) -> Any:
+    """What the logarithm is taken of, whichever way the code writes it: one call log(q/q0), or two
+    calls log(q) - log(q0) (then with the instance of ln(a/b) = ln a - ln b the obligations need).
+    Returns (argument term, [axioms]) or None for any other shape."""
+    from props.c01 import z3_vars
+
+    if len(calls) == 1:
+        return calls[0][0], []
+    if len(calls) == 2:
+        has = [any(v.eq(var) for v in z3_vars(c[0])) for c in calls]
+        if has.count(True) == 1:
+            num, den = (calls[0][0], calls[1][0]) if has[0] else (calls[1][0], calls[0][0])
+            quot = z3.simplify(num / den)
+            return quot, [LN(quot) == LN(z3.simplify(num)) - LN(z3.simplify(den)), den > 0]
+    return None
+
+
 def worker(task: List[Tuple]) -> Dict[str, Any]:
     orc = families.boot()
     n_ = ns()
@@ -129,7 +146,9 @@ def worker(task: List[Tuple]) -> Dict[str, Any]:
                 st = "unsat" if r == "unsat" else ("unknown" if r == "unknown" else "sat")
                 acc.ob(st, f"{label}:{name}", (label, name))
                 if st == "sat":
-                    acc.out["viol"].append((f"C18:{sig}:{lname}:{rc}:{qc}", f"{name} fails for {label}", rp))
+                    # ln/exp are uninterpreted with instance axioms: a counterexample is a candidate
+                    # that the replay on the real code confirms or not
+                    acc.out["viol"].append((f"C18:{sig}:{lname}:{rc}:{qc}", f"{name} fails for {label}", rp, "soft"))
 
             # ---- level(x): closed form, monotone ---------------------------------------
             def f_level() -> Any:
@@ -152,7 +171,14 @@ def worker(task: List[Tuple]) -> Dict[str, Any]:
             m1, m2, lu = p.result
             if lu is not LU:
                 raise symnum.HarnessError("level unit identity")
-            (arg1, b1), (arg2, b2) = p.log_calls[0], p.log_calls[1]
+            # the logarithm's argument for the first level() call (the calls of the second one,
+            # on X2, come after it)
+            eff = effective_argument(p.log_calls[:len(p.log_calls) // 2], X)
+            if eff is None:
+                acc.ob("unknown", f"{label}:the logarithm is taken in a form the harness does not recognise "
+                                  f"({len(p.log_calls)} log calls)", (label, "shape"))
+                continue
+            arg1, ln_axioms = eff
             want_arg = symnum.q(rho[0] / r0) * X
             # (1) the argument of the logarithm is quantity/reference
             # (tolerance of the shipped definitions, as C04: redundant declaration chains such
@@ -163,7 +189,7 @@ def worker(task: List[Tuple]) -> Dict[str, Any]:
             lnb = LN(z3.simplify(real(symnum.q(base))))
             e_is_e = LN(symnum.E_CONST) == 1
             closed = symnum.q(Fraction(k_phys) / pv) * LN(z3.simplify(arg1)) / lnb
-            ask(z3.And(p.cond, lnb != 0, e_is_e), absz(real(m1.t) - closed) <= symnum.q(REL) * absz(closed),
+            ask(z3.And(p.cond, lnb != 0, e_is_e, *ln_axioms), absz(real(m1.t) - closed) <= symnum.q(REL) * absz(closed),
                 "closed-form", "closed-form")
             # (3) strictly increasing
             ask(z3.And(p.cond, X < X2), real(m1.t) < real(m2.t), "strictly-increasing", "monotone")
@@ -185,11 +211,17 @@ def worker(task: List[Tuple]) -> Dict[str, Any]:
                                             f"{p.outcome} in level->quantity for {label}", rp))
                     continue
                 qm, qu, e1, e2 = p.result
-                arg = p.log_calls[0][0]
+                # (Level.__eq__ may take logarithms of its own after the first level() call)
+                ncalls = len(oks[0].log_calls) // 2
+                eff = effective_argument(p.log_calls[:ncalls], X)
+                if eff is None:
+                    acc.ob("unknown", f"{label}:round-trip#p{i}: unrecognised logarithm form", (label, "rt", i))
+                    continue
+                arg, rt_axioms = eff
                 lhs = LN(z3.simplify(real(qm.t) / symnum.q(r0)))
                 rhs = LN(z3.simplify(arg))
                 tol = symnum.q(Fraction(1, 2 ** 48)) * absz(rhs)
-                ask(z3.And(p.cond, real(qm.t) / symnum.q(r0) == EXP(LN(real(qm.t) / symnum.q(r0)))),
+                ask(z3.And(p.cond, real(qm.t) / symnum.q(r0) == EXP(LN(real(qm.t) / symnum.q(r0))), *rt_axioms),
                     z3.And(real(qm.t) > 0, absz(lhs - rhs) <= tol), f"quantity-level-quantity#p{i}",
                     "round-trip")
                 if qu is not refu.unit:
